@@ -370,6 +370,20 @@ CLAIMS["C12"]["text"] += (" Translator tie (harness/py2coq_corr.py over the pair
                           "naming pairs both ways round.")
 
 
+def _cells_tie():
+    import translated
+    return translated.cells_tie()
+
+
+CLAIMS["C08"]["ties"] = (_cells_tie,)
+CLAIMS["C08"]["technique"] += " + source-to-Gallina translator tie for Market._update_market_price (regenerated and re-proved every run)"
+CLAIMS["C08"]["text"] += (" Translator tie (harness/py2coq_cells.py; Optional[float] expressions evaluated in the error monad of coq/theories/CellsPy.v, arithmetic on None being "
+                          "Python's TypeError): Market._update_market_price is REGENERATED from /repo's source on every run and coq/translated/CellsC08Proofs.v is re-checked against "
+                          "the generated text: it never raises; the mid price becomes the mean of the two best limit prices when both exist and undefined otherwise; while running "
+                          "the market price becomes the last executed price of the step, else the mid price, else stays - exactly the model's update_market_price (the function the "
+                          "C08 theorems are about) on the two series at the current time.")
+
+
 def _index_tie():
     import translated
     return translated.index_tie()
